@@ -240,6 +240,8 @@ macro_rules! impl_quat_acc {
             const NAME: &'static str = stringify!($Q);
             fn from_lanes(l: &[$S]) -> Self { $Q::from_xyzw(l[0], l[1], l[2], l[3]) }
             fn lanes(&self) -> Vec<$S> { self.to_array().to_vec() }
+            fn from_slice_(s: &[$S]) -> Self { $Q::from_slice(s) }
+            fn write_to_slice_(&self, s: &mut [$S]) { self.write_to_slice(s) }
         }
         impl Acc for $Q {
             fn ctor(path: &str, l: &[$S]) -> Option<Self> {
